@@ -5,6 +5,7 @@ import ast
 from ..astutil import call_attr, call_recv, calls_in, norm, param_names, walk_own
 from ..cfg import assigns_to, build_cfg
 from ..rules import calling, fn_cfg, k1_before, k1_never_after, k2_unreachable, need
+from ..index import AnalysisError
 from ..selftest import Mutant
 
 ID = "C01"
@@ -37,6 +38,8 @@ paths).
 R7 (K1) publication last: RepositoryPackCollection._commit_write_group never runs autopack() after _save_pack_names();
    VersionedFileCommitBuilder.commit signs before _add_revision. R8 (K1) ContentFilterAwareSHA1Provider.sha1 /
    stat_and_sha1 hash the file on every normal path (no memo). Both added from third-round seeds.
+R9 (fourth round) the selection filter of breezy/git/tree.py:changes_from_git_changes is evaluated as a table (5 selections incl. None and []
+   x old/new paths incl. absent): a change is dropped exactly when a selection is given and neither path is selected.
 Does not decide: that the recorded tree equals basis+selection for every tree shape and path selection
 (record_iter_changes / _filter_iter_changes are data dependent).
 """
@@ -169,6 +172,61 @@ def run(ctx):
         hs = [n.id for n in gx.nodes if any((call_attr(c) or norm(c.func)).endswith(("size_sha_file", "internal_size_sha_file_byname", "sha_file", "sha_file_by_name")) for c in n.calls())]
         r8 = gx.reach([gx.entry], avoid=set(hs), include_src=True)
         ctx.check("R8-hash-always-computed", wsp, bool(hs) and gx.exit not in r8, f"{meth}() hashes the file on every normal path", message=f"ContentFilterAwareSHA1Provider.{meth} can answer without hashing the file (a cached value): after a same-size, same-mtime rewrite under one tree lock the commit records the old bytes and the tree reports the file as changed afterwards")
+    # ---- R9: the git sibling of the selection filter, decided as a table -------------------------------------------------
+    # changes_from_git_changes drops a change iff a selection is given (None = no selection, [] = select nothing) and neither
+    # its old nor its new path lies inside (or is a parent of) a selected path.  The loop body up to that decision is evaluated
+    # by the abstract interpreter on (selection) x (old path) x (new path).
+    from ..absint import Interp as _I9, Obj as _O9, Raised as _R9, Unsupported as _U9, _Continue as _C9
+
+    GTREE = "breezy/git/tree.py"
+    fcg = repo.func(GTREE, "changes_from_git_changes")
+    wcg = f"{GTREE}:changes_from_git_changes"
+    loops9 = [l_ for l_ in fcg.body if isinstance(l_, ast.For)]
+    ctx.require(len(loops9) == 1, f"{wcg}: the loop over the git changes was not found")
+    body9 = loops9[0].body
+    cut = [i for i, st in enumerate(body9) if any((call_attr(c) or "").startswith("is_inside") for c in calls_in(st))]
+    ctx.require(bool(cut), f"{wcg}: the selection test (osutils.is_inside…) was not found in the loop body")
+    slice9 = body9[: cut[-1] + 1]
+    sel_param = "specific_files"
+    ctx.require(sel_param in [a.arg for a in fcg.args.args + fcg.args.kwonlyargs], f"{wcg}: parameter specific_files not found")
+
+    def _inside_or_parent(dirs, path):
+        return any(path == d or path.startswith(d + "/") or d.startswith(path + "/") or d == "" for d in dirs)
+
+    def _hook9(interp, call, name, ev_args, env):
+        if name and name.split(".")[-1] in ("is_inside_or_parent_of_any", "is_inside_any"):
+            args, _ = ev_args()
+            if name.endswith("is_inside_any"):
+                return any(args[1] == d or args[1].startswith(d + "/") or d == "" for d in args[0])
+            return _inside_or_parent(args[0], args[1])
+        if name and name.split(".")[-1] == "decode_git_path":
+            args, _ = ev_args()
+            return args[0].decode("utf-8")
+        return NotImplemented
+
+    sels = [None, [], ["d"], ["d/c"], ["x"]]
+    pths = [None, b"d/c", b"x", b"moved"]
+    bad9 = []
+    try:
+        for sel in sels:
+            for op in pths:
+                for np_ in pths:
+                    if op is None and np_ is None:
+                        continue
+                    it9 = _I9(call_hook=_hook9)
+                    env = {loops9[0].target.id: _O9("change", type="modify", old=None if op is None else (op, 0o100644, b"a" * 40), new=None if np_ is None else (np_, 0o100644, b"b" * 40)), sel_param: sel, "include_unchanged": False}
+                    try:
+                        it9.block(slice9, env)
+                        skipped = False
+                    except _C9:
+                        skipped = True
+                    want = sel is not None and not any(p is not None and _inside_or_parent(sel, p.decode()) for p in (op, np_))
+                    if skipped != want:
+                        bad9.append((sel, op, np_, "dropped" if skipped else "kept"))
+    except (_R9, _U9, AttributeError, TypeError) as ex:
+        raise AnalysisError(f"{wcg}: selection filter not evaluable by the abstract interpreter ({ex})")
+    ctx.fact(len(sels) * len(pths) * len(pths))
+    ctx.check("R9-git-selection-filter-table", wcg, not bad9, f"a change is dropped exactly when a selection is given and neither its old nor its new path is selected ({len(sels)} selections incl. None and [] x old/new paths incl. absent)", construct=str(bad9[:3]), message=f"the git tree's selection filter decides wrongly, e.g. (selection, old path, new path, outcome) = {bad9[:3]}: with specific_files=[] ('commit nothing') every change is committed, or a rename selected by its old path stays out of the commit — a partial commit records paths the user did not select or leaves selected ones pending")
 
 
 def _unlock_aborts(ctx):
@@ -181,7 +239,9 @@ def _unlock_aborts(ctx):
 
 
 _H = "            except Exception:\n                mutter(\"aborting commit write group because of exception:\")\n                trace.log_exception_quietly()\n                self.builder.abort()\n                raise\n"
+
 MUTANTS = [
+    Mutant("git trees treat an empty selection as no selection", "breezy/git/tree.py", "        if not (\n            specific_files is None\n            or (\n                oldpath_decoded is not None", "        if specific_files and not (\n            (\n                oldpath_decoded is not None", expect="R9-git-selection-filter-table"),
     Mutant("pack-names written before autopack", PR, "            try:\n                result = self.autopack()\n                if not result:\n", "            try:\n                self._save_pack_names()\n                result = self.autopack()\n                if not result:\n", expect="R7-publish-last"),
     Mutant("sha1 provider remembers hashes by size and mtime", "breezy/bzr/workingtree_4.py", "        filters = self.tree._content_filter_stack(\n            self.tree.relpath(osutils.safe_unicode(abspath))\n        )\n        return _mod_filters.internal_size_sha_file_byname(abspath, filters)[1]\n", "        st = os.lstat(abspath)\n        memo = self.__dict__.setdefault(\"_memo\", {})\n        if memo.get(abspath, (None,))[0] == (st.st_size, st.st_mtime):\n            return memo[abspath][1]\n        filters = self.tree._content_filter_stack(\n            self.tree.relpath(osutils.safe_unicode(abspath))\n        )\n        memo[abspath] = ((st.st_size, st.st_mtime), _mod_filters.internal_size_sha_file_byname(abspath, filters)[1])\n        return memo[abspath][1]\n", expect="R8-hash-always-computed"),
     Mutant("excludes outside the selection dropped", CM, "                self.specific_files = sorted(minimum_path_selection(specific_files))\n            else:", "                self.specific_files = sorted(minimum_path_selection(specific_files))\n                self.exclude = [p for p in self.exclude if is_inside_any(self.specific_files, p)]\n            else:", expect="R6-selection-unnarrowed"),
